@@ -52,3 +52,119 @@ def add_tracegen(res, tg, prop):
     res.coverage["tracegen"] = cov
     res.samples.extend(tg["samples"][:3])
     return n
+
+# ---------------------------------------------------------------------------
+KNOWN = os.path.join(VERIF, "known_findings.json")
+
+def load_known():
+    try:
+        return json.load(open(KNOWN))
+    except FileNotFoundError:
+        return {"findings": [], "fixed": []}
+
+def add_mc(res, tier_, names):
+    """model-checking runs of the design that serve this property"""
+    runs = stages.mc_stage(tier_, names)
+    res.coverage["states"] = res.coverage.get("states", 0) + sum(r["distinct"] for r in runs)
+    res.coverage["transitions"] = res.coverage.get("transitions", 0) + sum(r["generated"] for r in runs)
+    res.coverage["model_checking_runs"] = [
+        {"config": r["name"], "distinct_states": r["distinct"], "states_generated": r["generated"], "wall_s": r["wall_s"],
+         "cached": r.get("_cache_hit", False), "actions_taken": r["coverage_by_action"]} for r in runs]
+
+def finish(res, tier_, wall):
+    known = load_known()
+    os.makedirs(EVIDENCE, exist_ok=True)
+    rdir = os.path.join(WORK, "replay"); os.makedirs(rdir, exist_ok=True)
+    new, listed = [], []
+    for v in res.violations:
+        hit = None
+        for k in known.get("findings", []):
+            if k["property"] == res.prop and re.fullmatch(k["signature"], v["signature"]):
+                hit = k; break
+        (listed if hit else new).append((v, hit))
+    lines = []
+    shown = set()
+    for v, k in listed:
+        if k["id"] not in shown:
+            shown.add(k["id"])
+            lines.append("KNOWN-FINDING: property=%s %s" % (res.prop, k["what"]))
+    for i, (v, _) in enumerate(new[:20]):
+        p = os.path.join(rdir, "%s_%s_%d.json" % (res.prop, tier_, i))
+        json.dump(v["replay"], open(p, "w"), indent=1)
+        lines.append("VIOLATION property=%s replay=%s  # %s" % (res.prop, p, v["desc"]))
+    for d in res.drift[:10]:
+        lines.append("MODEL-DRIFT property=%s %s: %s [%s event %s]" % (res.prop, d["tag"], d["why"][:300], d["job"], d["event"]))
+    cov = dict(res.coverage)
+    cov.setdefault("samples", res.samples[:6] or [{"note": "no sample recorded"}])
+    if res.level == "model_checking":
+        cov.setdefault("states", 0); cov.setdefault("transitions", 0); cov.setdefault("traces_validated_against_impl", 0)
+    cov["drift_records"] = len(res.drift)
+    cov["violations_found"] = [v["desc"] for v, _ in new[:20]]
+    cov["known_findings_matched"] = sorted(shown)
+    ev = {"property_id": res.prop, "tier": tier_, "seed": seed(), "level": res.level, "coverage": cov,
+          "assumptions": res.assumptions, "wall_s": round(wall, 2), "violations": len(new), "notes": res.notes}
+    tmp = os.path.join(EVIDENCE, res.prop + ".json.tmp")
+    json.dump(ev, open(tmp, "w"), indent=1)
+    os.replace(tmp, os.path.join(EVIDENCE, res.prop + ".json"))
+    for l in lines:
+        print(l)
+    print("%s property=%s tier=%s wall=%.1fs" % ("FAIL" if new else "PASS", res.prop, tier_, wall))
+    prune_cache()
+    return 1 if new else 0
+
+def replay(prop, path):
+    """re-run exactly the case of a replay file through the harness and TLC"""
+    r = json.load(open(path))
+    if r.get("stage") == "tracegen":
+        build_harness()
+        from . import tlc
+        d = os.path.join(WORK, "replay_run"); os.makedirs(d, exist_ok=True)
+        job = dict(r["job"]); job["id"] = 1
+        jf = os.path.join(d, "job.json"); json.dump([job], open(jf, "w"))
+        of = os.path.join(d, "trace.ndjson")
+        run([PFV, "run-jobs", jf, of, "1"])
+        res = tlc.run_trace_shards("replay", "TraceGen.tla", "TraceGen.cfg", [of])
+        bad = False
+        for vals, st, wall in res:
+            for v in vals:
+                if v and v[0] == "MSGS":
+                    for m in v[1]:
+                        print(m)
+                        if m[0] == "V" and m[3] == prop: bad = True
+        if bad:
+            print("VIOLATION property=%s replay=%s" % (prop, path)); return 1
+        print("replay: property %s holds on this case" % prop); return 0
+    print("replay for stage %r: see the stage's own command in the replay file" % r.get("stage"))
+    return 2
+
+# ---------------------------------------------------------------------------
+ASSUME_TRACE = ["hook events (cfg pickle_fuzzer_verif) report the generator's real output length, stack kinds and memo keys",
+                "RefPVM/Lexer transcribe CPython pickletools.dis / pickle.py semantics correctly (differentially tested against pickletools in the self-test)"]
+ASSUME_MC = ["exhaustive model-checking results transfer to the code only while trace validation reports no MODEL-DRIFT between GenCore guards/effects and the implementation"]
+
+def generic_tracegen_check(prop, mc_names, extra_notes=()):
+    def fn(tier_):
+        res = Result(prop)
+        tg = stages.tracegen_stage(tier_, tree_key("tracegen-" + tier_ + str(seed())))
+        add_tracegen(res, tg, prop)
+        if mc_names:
+            add_mc(res, tier_, mc_names)
+        res.assumptions = ASSUME_TRACE + (ASSUME_MC if mc_names else [])
+        res.notes.extend(extra_notes)
+        return res
+    return fn
+
+MC_SAFETY = ["MC_RunQuick", "MC_RunThorough", "MC_RunDeep", "MC_Step", "MC_StepDeep", "MC_StepMemo"]
+MC_RUNS_ONLY = ["MC_RunQuick", "MC_RunThorough", "MC_RunDeep"]
+
+CHECKS = {
+    "C01": generic_tracegen_check("C01", MC_SAFETY),
+    "C02": generic_tracegen_check("C02", MC_SAFETY),
+    "C03": generic_tracegen_check("C03", MC_SAFETY),
+    "C04": generic_tracegen_check("C04", []),
+    "C05": generic_tracegen_check("C05", MC_SAFETY),
+    "C06": generic_tracegen_check("C06", MC_RUNS_ONLY),
+    "C10": generic_tracegen_check("C10", MC_RUNS_ONLY),
+    "C11": generic_tracegen_check("C11", MC_RUNS_ONLY + ["MC_Live"]),
+    "C17": generic_tracegen_check("C17", MC_SAFETY),
+}
